@@ -188,6 +188,18 @@ impl RoutingThread {
                 self.process_peer_services(services, peer_index).await;
             }
             Message::GhostChain(chain) => {
+                {
+                    let configs = self.config_lock.read().await;
+                    if !configs.is_browser() && !configs.is_spv_mode() {
+                        // only lite nodes request ghost chains. a full node never lets a peer
+                        // insert unvalidated ghost blocks into its chain
+                        warn!(
+                            "ignoring unsolicited ghost chain from peer : {:?}",
+                            peer_index
+                        );
+                        return;
+                    }
+                }
                 self.process_ghost_chain(chain, peer_index).await;
             }
             Message::GhostChainRequest(block_id, block_hash, fork_id) => {
